@@ -139,16 +139,19 @@ def _set_with_op(container: Any, key: Any, op: str, value: Any) -> Any:
     key = _key_cast(container, key)
     value = copy.deepcopy(value)
 
-    if op == '+=':
-        container[key] += value
-    elif op == '-=':
-        container[key] -= value
-    elif op == '*=':
-        container[key] *= value
-    elif op == '/=':
-        container[key] /= value
-    else:
-        raise ParserError(f'Unsupported short op: {op}')
+    try:
+        if op == '+=':
+            container[key] += value
+        elif op == '-=':
+            container[key] -= value
+        elif op == '*=':
+            container[key] *= value
+        elif op == '/=':
+            container[key] /= value
+        else:
+            raise ParserError(f'Unsupported short op: {op}')
+    except LookupError:
+        raise ParserError(f'Key error \'{key}\'')
 
     return value
 
